@@ -1,6 +1,7 @@
 //! I->S driver for spec/Trace_H2Conn.tla (property C15): seeded random HTTP/2 frame storms against a REAL
 //! sozu worker (rapid reset, CONTINUATION / PING / SETTINGS floods around the configured thresholds, forced
-//! resets, empty DATA, window overflow and zero increments, anomalies on closed streams, oversized header lists,
+//! resets, empty DATA, window overflow and zero increments, flow-control ledgers (WINDOW_UPDATEs and INITIAL_WINDOW_SIZE
+//! changes on open streams whose reaction depends on the accumulated windows), anomalies on closed streams, oversized header lists,
 //! random mixes). Everything the peer sends and receives is recorded, per connection and in the peer's own
 //! program order, as one ndjson event per frame; TLC then checks that the recording is a behaviour of the spec.
 //!
@@ -53,7 +54,7 @@ impl Gen {
     /// one storm = list of bursts of abstract frames
     fn storm(&mut self, k: &Knobs) -> (String, Vec<Action>) {
         let profile = if k.rst >= 50 && self.n(0, 2) > 0 { "churn".to_string() } else {
-            self.pick(&["rapid_reset", "ping", "settings", "continuation", "made_you_reset", "empty_data", "wu0", "glitch", "headers", "mix", "mix"]).to_string() };
+            self.pick(&["rapid_reset", "ping", "settings", "continuation", "made_you_reset", "empty_data", "wu0", "glitch", "headers", "mix", "mix", "winledger", "winledger"]).to_string() };
         if profile == "churn" {
             // long, mostly valid traffic: streams are opened, answered, reset and poked after they are gone, so that
             // stream slots are recycled many times on one connection
@@ -152,6 +153,28 @@ impl Gen {
                         1 => frames.push(fr("RST", "-", s, "ok", "CANCEL")),
                         2 => frames.push(fr("DATA", "-", s, "ok", "x")),
                         _ => frames.push(fr("WU", "-", s, "ok", "inc0")),
+                    }
+                }
+            }
+            "winledger" => {
+                // flow-control ledger: streams stay open (their requests are held by the backend), WINDOW_UPDATEs and
+                // legal INITIAL_WINDOW_SIZE changes whose prescribed reaction depends on the windows accumulated so far
+                let mut open: Vec<u32> = vec![];
+                let n = self.n(3, 10);
+                for _ in 0..n {
+                    match self.n(0, 6) {
+                        0 | 1 if (open.len() as u32) < k.max_streams => {
+                            let s = self.new_sid();
+                            open.push(s);
+                            frames.push(fr("HEADERS", self.pick(&["EH", "EHES"]), s, "ok", "req"));
+                        }
+                        2 | 3 => frames.push(fr("SETTINGS", "-", 0, "ok", self.pick(&["iws_up", "iws_def", "iws_0", "iws_10", "iws_max"]))),
+                        4 => frames.push(fr("WU", "-", 0, "ok", self.pick(&["inc1", "near", "tomax"]))),
+                        _ if !open.is_empty() => {
+                            let s = open[self.rng.random_range(0..open.len())];
+                            frames.push(fr("WU", "-", s, "ok", self.pick(&["inc1", "near", "tomax", "incmax"])));
+                        }
+                        _ => frames.push(fr("PING", "-", 0, "ok", "-")),
                     }
                 }
             }
